@@ -56,22 +56,22 @@ type mOutput struct {
 
 // mBridge is the model of one bridge, built from observed successes.
 type mBridge struct {
-	ID         uint64
-	Proposer   string
-	Challenger string
-	Period     time.Duration
-	NextSeq    uint64
-	Outputs    []*mOutput // indices 1..len
-	Deleted    []*mOutput // outputs that were deleted (claims against them must fail)
-	Pool       []wd       // withdrawal tuples ever committed or invented for this bridge
-	NextWdSeq  uint64
-	Paid       map[string]bool     // tuple key -> paid
-	Ledger     map[string]math.Int // denom -> deposits - claims + direct sends
-	Pairs      map[string]string   // l2 denom -> l1 denom (first registration)
-	LastPropose *ophosttypes.MsgProposeOutput // the last accepted proposal message (for exact replays)
+	ID             uint64
+	Proposer       string
+	Challenger     string
+	Period         time.Duration
+	NextSeq        uint64
+	Outputs        []*mOutput // indices 1..len
+	Deleted        []*mOutput // outputs that were deleted (claims against them must fail)
+	Pool           []wd       // withdrawal tuples ever committed or invented for this bridge
+	NextWdSeq      uint64
+	Paid           map[string]bool               // tuple key -> paid
+	Ledger         map[string]math.Int           // denom -> deposits - claims + direct sends
+	Pairs          map[string]string             // l2 denom -> l1 denom (first registration)
+	LastPropose    *ophosttypes.MsgProposeOutput // the last accepted proposal message (for exact replays)
 	LastProposeOut *mOutput
-	FormerProp []string
-	FormerChal []string
+	FormerProp     []string
+	FormerChal     []string
 }
 
 type l1Cfg struct {
@@ -81,7 +81,7 @@ type l1Cfg struct {
 	badCfgProb    int             // percent of creations with an invalid config
 	withFee       bool
 	noAutoAdvance bool
-	manyBridges   bool // sometimes start from a chain that already has dozens of bridges
+	manyBridges   bool            // sometimes start from a chain that already has dozens of bridges
 	offsets       []time.Duration // offsets around a finalization boundary that "advance" jumps to
 }
 
